@@ -635,7 +635,7 @@ class Interp(Engine):
                         self._in_merge_of = fv.node
                         return self.call_func(fv, list(args), dict(kwargs))
                     try:
-                        return self.merged(thunk, self.merge_key(fv.qualname, args, kwargs))
+                        return self.merged(thunk, self.merge_key(fv.qualname, args, kwargs), self.val_terms(args))
                     finally:
                         self._in_merge_of = prev
         if summ is None and not isinstance(fv.node, ast.Lambda):
@@ -717,6 +717,9 @@ class Interp(Engine):
         finally:
             self.depth -= 1
 
+    def val_terms(self, args):
+        return [a.t for a in args if isinstance(a, type(S_NONE)) and a.kind == "val"]
+
     def merge_key(self, name, args, kwargs):
         parts = [name]
         for a in list(args) + [kwargs[k] for k in sorted(kwargs)]:
@@ -752,6 +755,12 @@ class Interp(Engine):
         p = self.p
         if n in BUILTIN_EXC or n in self.exc_hier:
             return SV("excobj", py=n, items=list(args))
+        if n == "type":
+            v = args[0]
+            t = self.box(v)
+            tid = z3.If(Val.is_VUndef(t), 0, z3.If(Val.is_VNull(t), 1, z3.If(Val.is_VNone(t), 2, z3.If(Val.is_VBool(t), 3,
+                  z3.If(Val.is_VInt(t), 4, z3.If(Val.is_VFlt(t), 5, z3.If(Val.is_VStr(t), 6, 100 + Val.cls(t))))))))
+            return SV("pytype", t=simp(tid))
         if n == "JSUndefined":
             return s_val(Val.VUndef)
         if n == "JSNull":
